@@ -323,3 +323,15 @@ package idempotency
 //@   ensures iface-releases-this-key: !mlHeld(l, key)
 //@   ensures iface-other-keys-as-before: forallS(k, k != key ==> (mlHeld(l, k) <==> old(mlHeld(l, k))))
 //@   ensures mu-not-held-on-return: !held(l.mu)
+
+// ---------------------------------------------------------------------------------------------
+// EXPORT VIEW of a function of the root package (its checked contract lives in /repo/zz_contracts_bind_verif.go;
+// it was an entry of /verif/contracts/deps/mw_C17.spec, where it shadowed that checked contract).
+// (*Bind).RespHeader(out) fills the map passed in `out` with the response headers (name -> all values).
+// The contract language cannot look inside the `any` argument, so the content of the map after the call
+// is unconstrained here: "the headers of the response" are, by definition, what this call reports.
+// (The checked frame in the root package is wider: the pooled binder's switch, scratch buffers and - only when the
+// handler switched this context's binder to WithAutoHandling and binding fails - the response status; none of
+// these is state this package's contracts talk about, except sentStatus, which the middleware writes itself later.)
+//@ func @fiber.(*Bind).RespHeader(b, out) assumed
+//@   modifies heap(MD_string_LJstring), heap(MV_string_LJstring)
